@@ -557,6 +557,19 @@ fn non_acquiring(env: &Env, tid: Tid, label: &str, f: impl FnOnce()) {
 				format!("non-acquiring operation `{label}` blocked on L{lid}, which the caller holds"),
 			);
 		}
+		// a release of a hold the operation never took (someone else's hold, or
+		// the caller's own in another mode): the verification lock refuses it, a
+		// real raw lock would be corrupted by it
+		if let Notice::IllegalRelease { tid: t, lid, op, kind, .. } = n {
+			if *t == tid {
+				env.finding(
+					"C17",
+					tid,
+					format!("releases-foreign-hold|{}|{kind:?}", label.split(' ').next().unwrap_or("")),
+					format!("non-acquiring operation `{label}` issued {op:?} on L{lid}, a hold it never took ({kind:?})"),
+				);
+			}
+		}
 	}
 	match r {
 		Ok(()) => {
@@ -650,6 +663,22 @@ fn illegal_release_findings(env: &Env, n0: usize) {
 				format!("illegal-release|{kind:?}"),
 				format!("thread {tid} issued {} on L{lid} which it does not hold that way ({kind:?})", op.short()),
 			);
+			if *kind == crate::exec::IllegalKind::Foreign {
+				// the lock is held by somebody else at this moment: with a real raw
+				// lock that holder's section stops being exclusive
+				env.finding(
+					"C02",
+					*tid,
+					format!("releases-hold-of-another-thread|{}", op.short()),
+					format!("thread {tid} issued {} on L{lid} while another thread holds it: that thread's section is no longer protected", op.short()),
+				);
+				env.finding(
+					"C04",
+					*tid,
+					format!("hold-taken-away-by-foreign-release|{}", op.short()),
+					format!("thread {tid} issued {} on L{lid} while another thread holds it: that thread's acquisition no longer holds every lock it returned with", op.short()),
+				);
+			}
 		}
 	}
 }
